@@ -11,14 +11,16 @@
     for the target shell); the cycle class, both directions, together with soundness and
     completeness of the cycle search on arbitrary definition lists; a grammar free of all these
     classes can only be rejected by check_subword_spaces (below).
-    NOT provable for the code as it is: "subword_spaces g sh = true -> rejected" -- the walk of
-    check_subword_spaces does not see two space-separated literals inside a word when they are
-    reached through nonterminals referenced directly in a call variant
-    (cmd p(<A> <B>); <A> ::= a; <B> ::= b;  is accepted: finding F1 of REPORT-checkproofs).
+    Since the repair of finding F1 (check_subword_spaces sees literals through nonterminals in
+    space-separated sequences) also: [subword_spaces g sh] is rejected with SubwordSpaces
+    (C08_subword_spaces).  The converse is not claimed: juxtaposed literals `foo(bar)` are rejected
+    with the same error although nothing is space-separated (known converse finding
+    `juxtaposed_literals_rejected`).
     The classes decided by the regex and DFA ambiguity checks are tied (T1) and judged on planted
     mistakes by lib/vf/checks/c08.py. *)
 From CG Require Import Base.Prelude Model.Ast Model.Check Spec.Choice Spec.Mistakes Proofs.CheckMistakes.
 From CG Require Import Proofs.CheckLemmas Proofs.CheckCycle Proofs.CheckFront Proofs.CheckCycleSpec.
+From CG Require Import Proofs.CheckSpacesSpec.
 
 Theorem C08_no_call_variant :
   forall builtins g sh,
@@ -195,6 +197,32 @@ Check C08_clean_accepted_unless_subword_spaces :
     (exists l r trace, from_grammar builtins g sh = Err (SubwordSpaces l r trace)).
 Print Assumptions C08_clean_accepted_unless_subword_spaces.
 
+(** *** Spaces inside a word.  [grammar_word_roots_ok g]: every word of the source is a
+    juxtaposition ([Subword] over a [Sequence]), which is what the parser builds.  When some word
+    of the expansion of a call variant contains two space-separated literals
+    ([Mistakes.subword_spaces]: directly or through chosen definitions, at any depth) and no
+    earlier class is present, the grammar is rejected with [SubwordSpaces]. *)
+Theorem C08_subword_spaces :
+  forall builtins g sh,
+    no_call_variant g = false -> varying_names g = false -> slash_in_name g = false ->
+    duplicate_plain g = false ->
+    unknown_shell g = false -> non_command_for_shell g = false -> duplicate_for_shell g sh = false ->
+    specs_have_command_plain g = true -> cyclic g sh = false ->
+    grammar_word_roots_ok g = true ->
+    subword_spaces g sh = true ->
+    exists l r trace, from_grammar builtins g sh = Err (SubwordSpaces l r trace).
+Proof. exact subword_spaces_rejected. Qed.
+Check C08_subword_spaces :
+  forall builtins g sh,
+    no_call_variant g = false -> varying_names g = false -> slash_in_name g = false ->
+    duplicate_plain g = false ->
+    unknown_shell g = false -> non_command_for_shell g = false -> duplicate_for_shell g sh = false ->
+    specs_have_command_plain g = true -> cyclic g sh = false ->
+    grammar_word_roots_ok g = true ->
+    subword_spaces g sh = true ->
+    exists l r trace, from_grammar builtins g sh = Err (SubwordSpaces l r trace).
+Print Assumptions C08_subword_spaces.
+
 (** Non-vacuity: concrete grammars meet each hypothesis, and a clean one is accepted by the model. *)
 Definition ex_sp := mkspan 1 1 2.
 Definition ex_dup : grammar :=
@@ -262,7 +290,9 @@ Example ex_C08_F1_subword_spaces_behind_root_refs :
   /\ present (fun _ => []) ex_f1_deeper Bash = [MSubwordSpaces]
   /\ is_ok (from_grammar (fun _ => []) ex_f1_deeper Bash) = false
   /\ present (fun _ => []) ex_f1_juxtaposed Bash = []
-  /\ is_ok (from_grammar (fun _ => []) ex_f1_juxtaposed Bash) = true.
+  /\ is_ok (from_grammar (fun _ => []) ex_f1_juxtaposed Bash) = true
+  /\ forallb grammar_word_roots_ok [ex_f1; ex_f1_direct; ex_f1_deeper; ex_f1_juxtaposed] = true
+  /\ specs_have_command_plain ex_f1 = true.
 Proof. vm_compute. repeat split; reflexivity. Qed.
 Print Assumptions ex_C08_F1_subword_spaces_behind_root_refs.
 
